@@ -267,10 +267,17 @@ impl<R: Read, TSpec> TagIterator<R, TSpec>
     #[inline(always)]
     fn peek_tag_id(&mut self) -> Result<(u64, usize), TagIteratorError> {
         self.ensure_data_read(8)?;
+        let available = self.buffered_byte_length - self.internal_buffer_position;
+        if available == 0 {
+            return Err(TagIteratorError::UnexpectedEOF { tag_start: self.current_offset(), tag_id: None, tag_size: None, partial_data: None });
+        }
         if self.buffer[self.internal_buffer_position] == 0 {
             return Ok((0, 1));
         }
         let length = 8 - self.buffer[self.internal_buffer_position].ilog2() as usize;
+        if length > available {
+            return Err(TagIteratorError::UnexpectedEOF { tag_start: self.current_offset(), tag_id: None, tag_size: None, partial_data: None });
+        }
         let mut val = self.buffer[self.internal_buffer_position] as u64;
         for i in 1..length {
             val <<= 8;
@@ -285,13 +292,9 @@ impl<R: Read, TSpec> TagIterator<R, TSpec>
         let (tag_id, id_len) = self.peek_tag_id()?;
         let spec_tag_type = <TSpec>::get_tag_data_type(tag_id);
         
-        let (size, size_len) = tools::read_vint(&self.buffer[(self.internal_buffer_position + id_len)..])
+        let (size, size_len) = tools::read_vint(&self.buffer[(self.internal_buffer_position + id_len)..self.buffered_byte_length])
         .or(Err(TagIteratorError::CorruptedFileData(CorruptedFileError::InvalidTagData{tag_id, position: self.current_offset() })))?
         .ok_or(TagIteratorError::UnexpectedEOF { tag_start: self.current_offset(), tag_id: Some(tag_id), tag_size: None, partial_data: None })?;
-    
-        if self.buffered_byte_length <= id_len + size_len {
-            return Err(TagIteratorError::UnexpectedEOF { tag_start: self.current_offset(), tag_id: Some(tag_id), tag_size: None, partial_data: None });
-        }
 
         if matches!(spec_tag_type, Some(TagDataType::UnsignedInt) | Some(TagDataType::Integer) | Some(TagDataType::Float)) && size > 8 {
             return Err(TagIteratorError::CorruptedFileData(CorruptedFileError::InvalidTagData{tag_id, position: self.current_offset() }));
